@@ -56,6 +56,8 @@ structure Cfg where
   filestatNullPath : Option Nat
   /-- `resolvePath` fails for a guest path that contains a NUL byte -/
   resolveRejectsNul : Bool
+  /-- `wasiFDReaddir` closes the entry's native descriptor after `opendir` (the table keeps the number) -/
+  readdirClosesNativeFd : Bool
   seekChecksWhenceFirst : Bool
   pwriteOffsetBits : Abi → Nat
   preadOffsetBits : Abi → Nat
@@ -70,6 +72,7 @@ def Cfg.ofGen : Cfg where
   fdstatNullPath := Gen.Wasi.fdstatNullPath
   filestatNullPath := Gen.Wasi.filestatNullPath
   resolveRejectsNul := Gen.Wasi.resolveRejectsNul
+  readdirClosesNativeFd := Gen.Wasi.readdirClosesNativeFd
   seekChecksWhenceFirst := Gen.Wasi.seekChecksWhenceFirst
   pwriteOffsetBits := fun | .preview1 => Gen.Wasi.fd_pwrite_offset_bits_p1 | .unstable => Gen.Wasi.fd_pwrite_offset_bits_un
   preadOffsetBits := fun | .preview1 => Gen.Wasi.fd_pread_offset_bits_p1 | .unstable => Gen.Wasi.fd_pread_offset_bits_un
@@ -669,7 +672,10 @@ def readdirOpen {σ} (cfg : Cfg) (H : Host σ) (s : St σ) (n : Nat) (d : Desc) 
         match H.opendir s.host p with
         | (h', .unmodelled) => .val (.error ({ s with host := h' }, .unmodelled))
         | (h', .err e) => .val (.error ({ s with host := h' }, .errno (wasiErrno e) []))
-        | (h', .ok dh) => .val (.ok (setDesc { s with host := h' } n fun e => { e with dir := some dh }))
+        | (h', .ok dh) =>
+          -- only the by-value copy `descriptor` would be reset: the table entry keeps its native fd
+          let h'' := if cfg.readdirClosesNativeFd ∧ d.fd ≥ 0 then (H.close h' d.fd).1 else h'
+          .val (.ok (setDesc { s with host := h'' } n fun e => { e with dir := some dh }))
 
 /-- `wasiFDReaddir` up to the listing loop -/
 def fdReaddir {σ} (cfg : Cfg) (H : Host σ) (s : St σ) (n _buf len cookie used : Nat) : Out (St σ × Res) :=
